@@ -1,5 +1,6 @@
 import Tengo.Sexp
 import Tengo.Model.Format
+import Tengo.Model.FormatSpec
 /-!
 Line protocol of the formatter model:
 `(fmt <limit> #<format> (args…) (oracle…))` → `ok #<hex>` | `err stringLimit` | `unsupported` | `panic`
@@ -75,7 +76,31 @@ def handleFmt : List Sexp → String
     | _, _, _, _ => "bad-op"
   | _ => "bad-op"
 
+open Tengo.Model.FormatSpec in
+/-- `(gfmt flagmask wid|- prec|- verb arg)` → `ok #<directive text> #<G's rendering>`. -/
+def handleG : List Sexp → String
+  | [m, w, p, v, a] =>
+    match m.asNat?, v.asNat?, parseArg a with
+    | some m, some verb, some arg =>
+      let optNat (x : Sexp) : Option Nat := match x with | Sexp.atom "-" => none | _ => x.asNat?
+      let d : GDir := { plus := m % 2 = 1, minus := m / 2 % 2 = 1, sharp := m / 4 % 2 = 1, space := m / 8 % 2 = 1,
+                        zero := m / 16 % 2 = 1, width := optNat w, prec := optNat p, verb := verb }
+      let out : Option Bytes :=
+        match arg with
+        | .int n =>
+          if verb = 98 ∨ verb = 100 ∨ verb = 111 ∨ verb = 79 ∨ verb = 120 ∨ verb = 88 then some (renderInt d n.toInt)
+          else if verb = 99 then some (renderChar d n.toInt) else none
+        | .str s => if verb = 115 then some (renderStr d s) else none
+        | .bytes s => if verb = 115 then some (renderStr d s) else none
+        | .bool b => if verb = 116 then some (renderBool d b) else none
+        | _ => none
+      match out with
+      | some o => "ok #" ++ Sexp.hexOfBytes (showDir d) ++ " #" ++ Sexp.hexOfBytes o
+      | none => "unsupported"
+    | _, _, _ => "bad-op"
+  | _ => "bad-op"
+
 def handlers : List (String × (List Sexp → String)) :=
-  [("fmt", handleFmt)]
+  [("fmt", handleFmt), ("gfmt", handleG)]
 
 end Tengo.Drivers.C17
